@@ -45,3 +45,57 @@ def line_budget(budget=None):
         mon.set_events(TOOL, 0)
         box["count"] = _state["count"]
         _state["budget"] = None
+
+
+# ------------------------------------------------------------------ line coverage of the library (evidence: what the workload reached) -----
+COVER_TOOL = 5
+_cover = {"on": False, "hits": set()}
+
+
+def _on_cover_line(code, line):
+    fn = code.co_filename
+    if fn.startswith(env.REPO_SRC) and "gbigsmiles" in fn:
+        _cover["hits"].add((fn, line))
+    return sys.monitoring.DISABLE  # every location reports once: near-zero cost
+
+
+def start_coverage():
+    if _cover["on"]:
+        return
+    mon = sys.monitoring
+    try:
+        mon.use_tool_id(COVER_TOOL, "gbv-cover")
+    except ValueError:
+        return
+    mon.register_callback(COVER_TOOL, mon.events.LINE, _on_cover_line)
+    mon.set_events(COVER_TOOL, mon.events.LINE)
+    _cover["on"] = True
+
+
+def coverage_hits():
+    """{relative file name: sorted line numbers executed so far in this process}"""
+    import os
+
+    out = {}
+    for fn, line in _cover["hits"]:
+        out.setdefault(os.path.relpath(fn, env.REPO), []).append(line)
+    return {k: sorted(v) for k, v in out.items()}
+
+
+def executable_lines(path):
+    """line numbers that belong to function / method bodies of a source file (module-level statements run at import, before monitoring starts)"""
+    with open(path) as fh:
+        code = compile(fh.read(), path, "exec")
+    lines = set()
+
+    def walk(co, count):
+        if count:
+            for _, _, ln in co.co_lines():
+                if ln is not None and ln != co.co_firstlineno:
+                    lines.add(ln)
+        for c in co.co_consts:
+            if hasattr(c, "co_code"):
+                walk(c, bool(c.co_flags & 0x1))  # CO_OPTIMIZED: functions, lambdas, comprehensions; class bodies (run at import) are not counted
+
+    walk(code, False)
+    return lines
